@@ -278,5 +278,8 @@ func trimControlCharsAndSpaces(s string) string {
 		}
 		iend--
 	}
+	if istart > iend {
+		return "" // nothing but control characters and spaces
+	}
 	return s[istart : iend+1]
 }
